@@ -30,6 +30,8 @@ fn run_text<T: DiffableStr + ?Sized>(tok: usize, alg: Algorithm, nl_override: Op
     if let Some(x) = nl_override {
         c.newline_terminated(x);
     }
+    // every other configuration is used through a CLONE of the builder
+    let c = if (a.len() + b.len() + tok) % 2 == 0 { c.clone() } else { c };
     fn pack<'a, T: DiffableStr + ?Sized + 'a>(d: TextDiff<'a, 'a, '_, T>) -> Got {
         Got {
             ops: d.ops().to_vec(),
@@ -618,6 +620,70 @@ pub fn families() -> Vec<Box<dyn Family>> {
                                     "text.ops_differ_from_sequence_diff",
                                     format!("user-defined DiffableStr with a length-only Hash: text diff ops {} but the sequence diff of the tokens gives {} | alg={} structure={} old tokens={} new tokens={}", fmt_ops(&got), fmt_ops(&want), alg_name(alg), kind, fmt_seq(&a), fmt_seq(&b)),
                                 );
+                            }
+                        }
+                    }
+                }
+            },
+        ),
+        family(
+            "config_sequences",
+            "builder configurations under which no deadline can cut the diff short must give exactly the sequence diff of the tokens: deadline(instant in the past) followed by timeout(1 h) or by deadline(1 h ahead) on the same builder (the later setter replaces the earlier one), clones of such builders; line texts of 5 / 60 / 150 tokens x 3 algorithms",
+            true,
+            1,
+            |cfg| if cfg.tiny { 1 } else { cfg.tier.pick(6, 18) },
+            |idx, cfg, out| {
+                let mut rng = Rng::for_case(cfg.seed, "c14.config_sequences", idx);
+                let n = if cfg.tiny { 5 } else { [5usize, 60, 150][(idx % 3) as usize] };
+                let alg = ALGS[(idx / 3 % 3) as usize];
+                let a: Vec<u32> = (0..n).map(|_| rng.below(n / 2 + 2) as u32).collect();
+                let b = gen::point_edits(&mut rng, &a, 4, (n / 2 + 2) as u32, n + 8);
+                let ta: String = a.iter().map(|x| format!("line {}\n", x)).collect();
+                let tb: String = b.iter().map(|x| format!("line {}\n", x)).collect();
+                out.sample(|| format!("alg={} {} / {} lines", alg_name(alg), a.len(), b.len()));
+                out.nontrivial(&(alg_name(alg), &a, &b));
+                let want = guard(|| capture_diff_slices(alg, &ta.tokenize_lines(), &tb.tokenize_lines()));
+                let past = std::time::Instant::now().checked_sub(std::time::Duration::from_secs(5)).unwrap_or_else(std::time::Instant::now);
+                let mut runs: Vec<(&'static str, Result<Vec<DiffOp>, String>)> = Vec::new();
+                out.evals_add(4);
+                runs.push(("deadline(5 s ago) then timeout(1 h)", guard(|| {
+                    let mut c = TextDiff::configure();
+                    c.algorithm(alg).deadline(past).timeout(std::time::Duration::from_secs(3600));
+                    c.diff_lines(&ta, &tb).ops().to_vec()
+                })));
+                runs.push(("deadline(5 s ago) then timeout(1 h), cloned", guard(|| {
+                    let mut c = TextDiff::configure();
+                    c.algorithm(alg).deadline(past).timeout(std::time::Duration::from_secs(3600));
+                    c.clone().diff_lines(&ta, &tb).ops().to_vec()
+                })));
+                runs.push(("deadline(5 s ago) then deadline(1 h ahead)", guard(|| {
+                    let mut c = TextDiff::configure();
+                    c.algorithm(alg).deadline(past).deadline(std::time::Instant::now() + std::time::Duration::from_secs(3600));
+                    c.diff_lines(&ta, &tb).ops().to_vec()
+                })));
+                // (a timeout that has elapsed between configuring the builder and using it would need real
+                // time as the verdict; that plumbing question is decided by C07 from the Instant that reaches
+                // the deadline check, independent of machine load)
+                runs.push(("timeout(1 h), cloned twice", guard(|| {
+                    let mut c = TextDiff::configure();
+                    c.algorithm(alg).timeout(std::time::Duration::from_secs(3600));
+                    c.clone().clone().diff_lines(&ta, &tb).ops().to_vec()
+                })));
+                match want {
+                    Err(p) => out.violation("panic", format!("capture_diff_slices panicked: {}", p)),
+                    Ok(want) => {
+                        for (what, r) in runs {
+                            match r {
+                                Err(p) => out.violation("panic", format!("{}: panicked: {} | alg={}", what, p, alg_name(alg))),
+                                Ok(got) => {
+                                    out.count("config_sequences_verified");
+                                    if got != want {
+                                        out.violation(
+                                            "text.ops_differ_from_sequence_diff",
+                                            format!("builder configured with {}: text diff ops {} but the sequence diff of the tokens gives {} | alg={} old={} new={}", what, fmt_ops(&got), fmt_ops(&want), alg_name(alg), show(ta.as_bytes()), show(tb.as_bytes())),
+                                        );
+                                    }
+                                }
                             }
                         }
                     }
